@@ -568,6 +568,8 @@ class NodeDeref:
             exists = value.hasItem(member)
             while not exists and value.hasItem("_proto_"):
                 value = value.getItem("_proto_")
+                if not value.isObject():
+                    break
                 exists = value.hasItem(member)
             if not exists:
                 if self.default_value:
@@ -674,6 +676,8 @@ class NodeDerefInvoke:
             exists = obj.hasItem(self.member)
             while not exists and obj.hasItem("_proto_"):
                 obj = obj.getItem("_proto_")
+                if not obj.isObject():
+                    break
                 exists = obj.hasItem(self.member)
             if not exists:
                 raise CklRuntimeError(
